@@ -237,4 +237,14 @@ func TestRegisterModel(t *testing.T) {
 	model = map[string]any{}
 	r1, _ = c20Model(q, table, model)
 	eq("ragged with WHERE", r1, `[{"g":null},[],{"g":1}]`)
+	// GROUP BY b HAVING COUNT(*) >= 2 over b = s, NULL, t, s: the select list runs for the one group that passes
+	gtable := rowsOf(t, `[{"id":1,"a":10,"b":"s"},{"id":2,"a":0,"b":null},{"id":3,"a":20,"b":"t"},{"id":4,"a":20,"b":"s"}]`)
+	model = map[string]any{"n": 0.0}
+	q = &c20Query{WhereK: -1, GroupBy: true, HavingK: 2, Items: []c20Item{{Kind: "get", Key: "n", Alias: "seen"}, {Kind: "set", Key: "n", VKind: "num", VNum: 7, SetAlias: "w"}}}
+	r1, _ = c20Model(q, gtable, model)
+	eq("group by having", r1, `[{"b":"s","seen":0}]`)
+	q.HavingK = 0
+	model = map[string]any{}
+	r1, _ = c20Model(q, gtable, model)
+	eq("group by", r1, `[{"b":"s","seen":null},{"b":null,"seen":7},{"b":"t","seen":7}]`)
 }
